@@ -269,6 +269,16 @@ var selCases = []selCase{
 	{"mix=>o", func(d *selDoc) (any, bool) { return Map{"p_q": d.x, "p_r_z": d.s, "w": d.y}, false }},
 	{"mix=>o.p", func(d *selDoc) (any, bool) { return Map{"q": d.x, "r_z": d.s}, false }},
 	{"mix=>a.b", func(d *selDoc) (any, bool) { return nil, true }},
+	// a top-level function and a keep=> marker in one segment
+	{"mix=>m[keep=>each:each]", func(d *selDoc) (any, bool) { return []any{d.x, d.y, d.x}, false }},
+	{"distinct=>m[keep=>each:0]", func(d *selDoc) (any, bool) {
+		if d.x == d.y {
+			return []any{d.x}, false
+		}
+		return []any{d.x, d.y}, false
+	}},
+	{"nosuch=>m[keep=>each:0]", func(d *selDoc) (any, bool) { return nil, true }},
+	{"mix=>m[keep=>each:each]::[0]", func(d *selDoc) (any, bool) { return d.x, false }},
 	{"distinct=>a", func(d *selDoc) (any, bool) { return nil, true }},
 }
 
